@@ -1,0 +1,23 @@
+//go:build verif
+
+package list
+
+import "github.com/anyproto/any-sync/commonspace/object/acl/aclrecordproto"
+
+// Verification hooks (build tag `verif` only, property C11): exported wrappers around the package-internal
+// partial decoder of keepidentity.go. No behaviour is added or changed.
+
+// VerifKeepIdentityFast runs the strict fast path alone (an error means "defer to the full decoder").
+func VerifKeepIdentityFast(data []byte, isOurs func(identity []byte) bool) (*aclrecordproto.AclData, error) {
+	return keepIdentityFast(data, isOurs)
+}
+
+// VerifUnmarshalKeepIdentity runs the fast path with the fallback to the generated decoder + filter.
+func VerifUnmarshalKeepIdentity(data []byte, isOurs func(identity []byte) bool) (*aclrecordproto.AclData, error) {
+	return unmarshalAclDataKeepIdentity(data, isOurs)
+}
+
+// VerifFullDecodeFilter runs the authoritative path alone.
+func VerifFullDecodeFilter(data []byte, isOurs func(identity []byte) bool) (*aclrecordproto.AclData, error) {
+	return fullDecodeFilter(data, isOurs)
+}
